@@ -62,42 +62,125 @@ def finish (c : Conc String String String) (t : Nat) (trace : List String) : Nat
   | fuel + 1 =>
     if c.enabled t then finish (c.step t) t (s!"{t}:{tlabel c t}" :: trace) fuel else (c, trace)
 
+/-- a concurrent party besides the committer: a lookup, or a writer to the committing block's own handle -/
+inductive Party where
+  | get (k h : String)
+  | set (k v : String)          -- BlockCache.Set on the committing block
+  | tcommit (t : String)        -- Commit of a transaction cache that sits on the committing block
+
+def parseParty (r : String) : Party :=
+  match r.splitOn ":" with
+  | ["set", k, v] => .set k v
+  | ["tcommit", t] => .tcommit t
+  | _ =>
+    match r.splitOn "@" with
+    | [k, h] => .get k (hashOf h)
+    | _ => .get r ""
+
+/-- state of a `conc` run: the interleaving model plus the block cache under commit, the transaction caches, the writers
+    already issued and those waiting for the block cache's mutex (they run when the commit returns) -/
+structure CS where
+  c : Conc String String String
+  bc : BC String String String
+  tcs : List (String × TC String String String String)
+  issued : List Nat
+  waiting : List Nat
+  order : String
+  trace : List String
+
+def orderedWrites (order : String) (bc : BC String String String) : List (String × Entry String) :=
+  if order = "-" then bc.cache
+  else (order.splitOn ",").filterMap (fun k => (alookup bc.cache k).map (fun e => (k, e)))
+
+def applyWrite (cs : CS) : Party → CS
+  | .set k v => { cs with bc := cs.bc.set k v }
+  | .tcommit t =>
+    match alookup cs.tcs t with
+    | some tc =>
+      { cs with bc := tc.cache.foldl (fun b p => b.setValue p.1 p.2) cs.bc,
+                tcs := aset cs.tcs t { tc with cache := [] } }
+    | none => cs
+  | .get _ _ => cs
+
+def committerPc (c : Conc String String String) : Option (CPc String String String) :=
+  match c.threads with
+  | Thread.committer m :: _ => some m.pc
+  | _ => none
+
+/-- when the commit returns: the block cache is reset if the commit took effect, then the waiting writers run -/
+def afterCommitStep (parties : List Party) (before : Option (CPc String String String)) (cs : CS) : CS :=
+  match before, committerPc cs.c with
+  | some (.done _), _ => cs
+  | _, some (.done eff) =>
+    let cs1 := if eff then { cs with bc := { cs.bc with cache := [], committed := true } } else cs
+    let cs2 := cs1.waiting.foldl (fun acc t => match parties[t - 1]? with | some p => applyWrite acc p | none => acc) cs1
+    { cs2 with waiting := [] }
+  | _, _ => cs
+
+/-- one scheduled step of thread `t` (skipped when the thread cannot run) -/
+def concStep (parties : List Party) (cs : CS) (t : Nat) : CS :=
+  if t = 0 then
+    if cs.c.enabled 0 then
+      let before := committerPc cs.c
+      let cs1 := { cs with c := cs.c.step 0, trace := s!"0:{tlabel cs.c 0}" :: cs.trace }
+      afterCommitStep parties before cs1
+    else cs
+  else
+    match parties[t - 1]? with
+    | none => cs
+    | some (Party.get _ _) =>
+      if cs.c.enabled t then { cs with c := cs.c.step t, trace := s!"{t}:{tlabel cs.c t}" :: cs.trace } else cs
+    | some p =>
+      if cs.issued.contains t then cs
+      else
+        let cs1 := { cs with issued := t :: cs.issued, trace := s!"{t}:write" :: cs.trace }
+        match committerPc cs.c with
+        | some (.done _) => applyWrite cs1 p
+        | _ => { cs1 with waiting := cs1.waiting ++ [t] }      -- Commit holds the block cache's mutex until it returns
+
+def canRun (parties : List Party) (cs : CS) (t : Nat) : Bool :=
+  if t = 0 then cs.c.enabled 0 else
+    match parties[t - 1]? with
+    | some (Party.get _ _) => cs.c.enabled t
+    | some _ => !cs.issued.contains t
+    | none => false
+
+def finishThread (parties : List Party) (t : Nat) : Nat → CS → CS
+  | 0, cs => cs
+  | fuel + 1, cs => if canRun parties cs t then finishThread parties t fuel (concStep parties cs t) else cs
+
+def finishAll (parties : List Party) (n : Nat) (cs : CS) : CS :=
+  (List.range n).foldl (fun acc t => finishThread parties t 100000 acc) cs
+
 def runConc (s : S) (bid order readers sched : String) : S × String :=
   match alookup s.bcs bid with
   | none => (s, "bad-op")
   | some bc =>
-    let writes :=
-      if order = "-" then bc.cache
-      else (order.splitOn ",").filterMap (fun k => (alookup bc.cache k).map (fun e => (k, e)))
-    let rds : List (Thread String String String) :=
-      if readers = "-" then []
-      else (readers.splitOn ",").map (fun r =>
-        match r.splitOn "@" with
-        | [k, h] => Thread.reader (Reader.init k (hashOf h))
-        | _ => Thread.reader (Reader.init r ""))
+    let parties : List Party := if readers = "-" then [] else (readers.splitOn ",").map parseParty
+    let ths : List (Thread String String String) := parties.map (fun p =>
+      match p with
+      | .get k h => Thread.reader (Reader.init k h)
+      | _ => Thread.reader ⟨"", "", .done none⟩)          -- placeholder: writers are stepped by the driver
     let c0 : Conc String String String :=
-      { sc := s.sc, lock := none, threads := Thread.committer ⟨bc.hash, bc.prev, writes, .start⟩ :: rds }
+      { sc := s.sc, lock := none, threads := Thread.committer ⟨bc.hash, bc.prev, orderedWrites order bc, .start⟩ :: ths }
     let n := c0.threads.length
     -- launch prologue: the committer takes sc.lock before its first yield point
-    let c1 := c0.step 0
-    let (c2, tr) := (if sched = "-" then [] else sched.toList).foldl (fun (acc : Conc String String String × List String) ch =>
+    let cs0 : CS := { c := c0.step 0, bc := bc, tcs := s.tcs, issued := [], waiting := [], order := order, trace := [] }
+    let cs1 := (if sched = "-" then [] else sched.toList).foldl (fun (acc : CS) ch =>
       let t := ch.toNat - 48
-      let (c, tr) := acc
-      if t < n && c.enabled t then (c.step t, s!"{t}:{tlabel c t}" :: tr) else (c, tr)) (c1, [])
-    let (c3, tr) := (List.range n).foldl (fun (acc : Conc String String String × List String) t =>
-      finish acc.1 t acc.2 100000) (c2, tr)
-    let eff := match c3.threads[0]? with
-      | some (.committer m) => (match m.pc with | .done true => true | _ => false)
-      | _ => false
-    let bc' := if eff then { bc with cache := [], committed := true } else bc
-    let rs := (c3.results.drop 1).zipIdx.map (fun (r, i) =>
-      let v := match r with
-        | some (some v) => "hit:" ++ v
-        | some none => "miss"
-        | none => "unfinished"
-      s!"r{i + 1}={v}")
-    ({ s with sc := c3.sc, bcs := aset s.bcs bid bc' },
-     " ".intercalate (("c=ok" :: rs) ++ ["trace=" ++ ",".intercalate tr.reverse]))
+      if t < n then concStep parties acc t else acc) cs0
+    let cs2 := finishAll parties n cs1
+    let rs := ((cs2.c.results.drop 1).zip parties).zipIdx.map (fun ((r, p), i) =>
+      match p with
+      | .get _ _ =>
+        let v := match r with
+          | some (some v) => "hit:" ++ v
+          | some none => "miss"
+          | none => "unfinished"
+        s!"r{i + 1}={v}"
+      | _ => s!"w{i + 1}=ok")
+    ({ s with sc := cs2.c.sc, bcs := aset s.bcs bid cs2.bc, tcs := cs2.tcs },
+     " ".intercalate (("c=ok" :: rs) ++ ["trace=" ++ ",".intercalate cs2.trace.reverse]))
 
 def step (s : S) (w : List String) : S × String :=
   match w with
